@@ -201,8 +201,9 @@ def classify_failure(err, repo_marker=REPO):
     code under test: the report's backtrace has a frame of the code under test (<repo>/src) AND a frame of
     the harness function that wraps a draw (one_draw / dyn_random / static_random).  Undefined behaviour
     inside another API call made by the workload (neighbour operations, battery) is not C19's business.
-    One more case is attributed to random(): a read of UNINITIALISED memory anywhere — the harness is safe
-    Rust and creates no uninitialised data, so such bytes can only be part of a table a draw returned.
+    One more case is attributed to random(): a read of UNINITIALISED memory anywhere outside the constant-operand
+    battery — the harness is safe Rust and creates no uninitialised data, so such bytes can only be part of a
+    table a draw returned (copies of it travel to the neighbour operation, the invariant check and the log).
     Anything else (unsupported operation, build error, failure in harness code) is a harness error."""
     in_volute = (repo_marker.rstrip("/") + "/src/") in err
     in_draw = bool(re.search(r"\b(one_draw|dyn_random|static_random)\b", err))
@@ -211,8 +212,8 @@ def classify_failure(err, repo_marker=REPO):
     if "Undefined Behavior" in head:
         if in_volute and in_draw:
             return "ub", head
-        if "uninitialized" in head and in_draw:
-            return "ub", head + " (uninitialised bytes in a table returned by random())"
+        if "uninitialized" in head and "battery::" not in err:
+            return "ub", head + " (uninitialised bytes in a table returned by random(): the harness is safe Rust and creates none)"
         return "harness", head + (" (undefined behaviour outside a random() call)" if in_volute else "")
     if "deadlock" in head and in_volute and in_draw:
         return "deadlock", head
